@@ -181,7 +181,12 @@ class Engine:
                 self._sub_from = (z3.Ast * n)(*[a.as_ast() for a, _ in self.lits])
                 self._sub_to = (z3.Ast * n)(*[b.as_ast() for _, b in self.lits])
                 self._sub_n = n
-            t = z3.z3._to_expr_ref(z3.Z3_substitute(t.ctx.ref(), t.as_ast(), n, self._sub_from, self._sub_to), t.ctx)
+            # literals are recorded in simplified (normalised) form, so normalise before matching them
+            t = z3.simplify(t)
+            t2 = z3.z3._to_expr_ref(z3.Z3_substitute(t.ctx.ref(), t.as_ast(), n, self._sub_from, self._sub_to), t.ctx)
+            if t2.eq(t):
+                return t
+            t = t2
         return z3.simplify(t)
 
     def _learn(self, cond, v):
